@@ -35,7 +35,7 @@ static void part_stdio_plans(vf::Rng& r) {
       uint64_t x = pi;
       for (int k = 0; k < K; k++, x >>= 2) p[k] = V[x & 3];
       C->crumb_n("read_all_file/cookie/plan4^k", L, pi);
-      one_read_all_file(payload, p, false, (int)((pi + L) % io::BUF_MODES), fmt("plan{1,2,3,F}^%d:len%zu", K, L));
+      one_read_all_file(payload, p, false, (int)((pi + L) % io::BUF_MODES), fmt("plan{1,2,3,F}^%d:%s", K, L == 0 ? "len0" : L <= 3 ? "len1-3" : "len4-12"));
     }
   }
   // block plans
@@ -126,6 +126,7 @@ static void part_fread() {
           bool threw = false;
           C->crumb_n("freadx(f,buf,size)", L, size, pi);
           try {
+            vf::poison_errno();
             phosg::freadx(f, buf.data(), size);
           } catch (const std::exception&) {
             threw = true;
@@ -181,6 +182,7 @@ static void judge_fgets(FILE* f, const string& payload, const char* kind, const 
   string what;
   try {
     for (size_t i = 0; i < expect.size() + 8; i++) {
+      vf::poison_errno();
       string l = phosg::fgets(f);
       if (l.empty()) break;
       got.push_back(std::move(l));
